@@ -33,7 +33,7 @@ var c20Revs = []int64{0, 1, -1, math.MinInt64, math.MaxInt64, 1 << 40, 1888, -18
 
 var c20Calls = []string{"brain.create", "brain.update", "brain.update-nilkv", "brain.delete", "brain.compact", "brain.get", "brain.range", "brain.count", "brain.partitions",
 	"brain.rangestream", "brain.watch", "etcd.range", "etcd.range-count", "etcd.range-partitions", "etcd.txn-create", "etcd.txn-update", "etcd.txn-delete", "etcd.txn-udelete",
-	"etcd.txn-empty", "etcd.txn-nil-ops", "etcd.txn-compact", "etcd.txn-unsupported", "etcd.watch", "etcd.watch-negative", "etcd.watch-cancel-unknown", "etcd.watch-sendfail",
+	"etcd.txn-empty", "etcd.txn-nil-ops", "etcd.txn-compact", "etcd.txn-unsupported", "etcd.watch", "etcd.watch-negative", "etcd.watch-cancel-unknown", "etcd.watch-sendfail", "etcd.watch-sendfail-on-event",
 	"etcd.put", "etcd.deleterange", "etcd.compact"}
 
 func genC20(r *rt.Rand, tier string, idx int) *world.Scenario {
@@ -319,6 +319,23 @@ func c20Custom(t *testing.T, sc *world.Scenario, out *Outcome) {
 					case "etcd.compact":
 						_, e := sn.Etcd.Compact(ctx, &pb.CompactionRequest{Revision: rev})
 						return e
+					case "etcd.watch-sendfail-on-event":
+						// the watch is created, then the client goes away: pushing the first change fails
+						st := world.NewEtcdWatchStream()
+						st.SendErrOnEvents = fmt.Errorf("transport is closing")
+						s.Go(fmt.Sprintf("hew%d.%d", ci, i), -1, func() {
+							call(desc, func() error { return sn.Etcd.Watch(st) })
+						})
+						st.Reqs <- &pb.WatchRequest{RequestUnion: &pb.WatchRequest_CreateRequest{CreateRequest: &pb.WatchCreateRequest{Key: []byte(prefix + "/"), RangeEnd: []byte(prefix + "0")}}}
+						s.YieldIdle("hostile.watch")
+						wk := fmt.Sprintf("%s/sendfail-%d-%d", prefix, ci, i)
+						if resp, e := sn.Brain.Create(ctx, &proto.CreateRequest{Key: []byte(wk), Value: []byte("x")}); e == nil && resp.Succeeded {
+							target := resp.Header.GetRevision()
+							s.YieldUntil("hostile.watch", func() bool { return sn.B.GetCurrentRevision() >= target })
+						}
+						s.YieldIdle("hostile.watch")
+						st.Cancel()
+						return nil
 					case "etcd.watch", "etcd.watch-negative", "etcd.watch-cancel-unknown", "etcd.watch-sendfail":
 						st := world.NewEtcdWatchStream()
 						s.Go(fmt.Sprintf("hew%d.%d", ci, i), -1, func() {
